@@ -138,7 +138,7 @@ package transport
 //@   preserves comp(TraditionalDnsConn.res)
 // (C02) closing never takes a reply back: what the reader handed to a waiter stays in the waiter's
 // channel (exchange looks there again after the close notification) and no buffer is released here
-//@   ensures[C02] calls(chanRecv) == 0 && calls(pollEmpty) == 0 && calls(ReleaseBuf) == 0
+//@   never[C02] chanRecv, pollEmpty, ReleaseBuf
 //@   ensures calls(chanClose) == 1 && arg(chanClose, 0, 0) == dc.closeNotify && calls(Close) == 1 && arg(Close, 0, 0) == dc.c
 //@   ensures calls(Store) == 1 && arg(Store, 0, 1) == true && callpos(Store, 0) < callpos(chanClose, 0) && callpos(Store, 0) < callpos(Close, 0)
 //@   ensures closed(dc.closeNotify)
